@@ -145,6 +145,10 @@ def check(ctx, rep):
              "is there; nothing escapes for a missing object: each predicate is evaluated by the walker for every kind of object "
              "(regular file, directory, FIFO, socket, character and block device, missing)", floor=1)
     vfs_predicate_obligations(ctx, rep, "R12f")
+    rep.rule("R12g", "when no handler takes a selector, handler selection raises FileNotFound and nothing else: the listing loops catch that class "
+             "(and OSError) for the one entry; the statements between the handler loop and the raise contain no operation that can fail "
+             "differently (a table looked up with a run-time key, a conversion)", floor=1)
+    selection_failure_obligations(ctx, rep, "R12g")
     dirbase = ctx.cls("handlers.dir.DirHandler")
     if dirbase is None:
         rep.fail("R12a", "DirHandler", detail="directory handler not found")
@@ -578,3 +582,68 @@ def vfs_predicate_obligations(ctx, rep, rule="R12f"):
         rep.add(rule, f"{m_.qualname}: answers by kind of object [{n} of {len(kinds)} kinds evaluated]", not problems and n >= 4, ctx.where(m_),
                 "; ".join(problems[:3]) if problems else ("" if n >= 4 else f"the walker could follow the predicate for {n} kinds only"),
                 key=f"{rule}|{pred}", nontrivial=n >= 4)
+
+
+# ---------------------------------------------------------------------------------------------- R12g
+def selection_failure_obligations(ctx, rep, rule="R12g"):
+    prog = ctx.prog
+    gh = ctx.func("handlers.HandlerMultiplexer.getHandler")
+    if gh is None:
+        rep.fail(rule, "HandlerMultiplexer.getHandler", detail="handler selection not found")
+        return
+    # the function that holds the handler loop: getHandler itself or a helper of its module it hands over to
+    cands = [gh]
+    for n in ast.walk(gh.node):
+        if isinstance(n, ast.Call):
+            t = ctx.resolver.resolve(n, gh, None)
+            if t.kind == "repo" and len(t.funcs) == 1 and t.funcs[0] is not None and t.funcs[0].module is gh.module and t.funcs[0] not in cands:
+                cands.append(t.funcs[0])
+    holder_f, loop = None, None
+    for f_ in cands:
+        for i, st in enumerate(f_.node.body):
+            if isinstance(st, (ast.For, ast.While)) and any(isinstance(c, ast.Call) and isinstance(c.func, ast.Attribute) and c.func.attr == "isrequestforme"
+                                                            for c in ast.walk(st)):
+                holder_f, loop = f_, i
+    if holder_f is not None:
+        gh_ = holder_f
+        body = gh_.node.body
+        tail = list(body[loop].orelse) + list(body[loop + 1:])
+        if holder_f is not gh:
+            # ... and whatever getHandler does after the helper came back without a handler (nothing, when it returns the call)
+            for i, st in enumerate(gh.node.body):
+                if any(isinstance(c, ast.Call) and ctx.resolver.resolve(c, gh, None).funcs[:1] == [holder_f] for c in ast.walk(st)) \
+                        and not isinstance(st, ast.Return):
+                    tail += list(gh.node.body[i + 1:])
+    else:
+        body = gh.node.body
+        loops = [i for i, st in enumerate(body) if isinstance(st, ast.For)]
+        if not loops:
+            loops = [max([i for i, st in enumerate(body) if any(isinstance(n, ast.Return) for n in ast.walk(st))] or [-1])]
+        tail = body[loops[-1] + 1:]
+    raises = [n for st in tail for n in ast.walk(st) if isinstance(n, ast.Raise)]
+    problems = []
+    if not raises:
+        problems.append("no raise after the handler loop: a selector nobody takes gives None instead of FileNotFound")
+    for r in raises:
+        exc = r.exc.func if isinstance(r.exc, ast.Call) else r.exc
+        if exc is None or not (dotted(exc) or "").endswith("FileNotFound"):
+            problems.append(f"`{norm(r)[:60]}` is not a FileNotFound")
+    SAFE_CALLS = ("str", "repr", "format", "len", "bool", "isinstance", "getattr", "hasattr", "type")
+    for st in tail:
+        for n in ast.walk(st):
+            if isinstance(n, ast.Subscript) and isinstance(n.ctx, ast.Load) and not isinstance(n.slice, ast.Slice):
+                idx = n.slice
+                const_idx = isinstance(idx, ast.Constant) or (dotted(idx) or "").startswith("stat.ST_")
+                if not const_idx:
+                    problems.append(f"`{norm(n)[:50]}` looks a run-time value up in a table: a value that is not in it raises KeyError/IndexError, which the "
+                                    "listing loops do not catch - one such entry takes the whole directory down")
+            if isinstance(n, ast.Call):
+                d = dotted(n.func) or ""
+                last = d.split(".")[-1]
+                if d.startswith("stat.S_") or last in SAFE_CALLS or d.endswith("FileNotFound") or d.endswith("logger.log") \
+                        or (isinstance(n.func, ast.Attribute) and n.func.attr in ("get", "join", "format", "lower", "upper", "strip")):
+                    continue
+                if last in ("int", "float", "index", "decode", "encode", "pop", "remove", "next"):
+                    problems.append(f"`{norm(n)[:50]}` can fail with an exception of another class on the way to the FileNotFound")
+    rep.add(rule, f"{gh.qualname}: a selector nobody takes raises FileNotFound and nothing else", not problems, ctx.where(gh, raises[0]) if raises else ctx.where(gh),
+            "; ".join(sorted(set(problems))[:2]), key=f"{rule}|getHandler")
